@@ -249,7 +249,6 @@ Theorem spec_file_read_any_rendering : forall (fl : file_layout) (t : xdoc) (m :
   let x := render c t in
   Permutation (meta_descriptors m) (layout_descriptors 48 fl (len x)) ->
   len x <= MAX_XML_SIZE ->
-  pcs_followed fl (len x) (spec_file_filler fl x) = true ->
   len (spec_encode_file fl x) < 2 ^ 64 ->
   let f := spec_encode_file fl x in
   exists rs d',
@@ -262,9 +261,9 @@ Theorem spec_file_read_any_rendering : forall (fl : file_layout) (t : xdoc) (m :
       exists cnt, In (d, cnt) (combine (layout_descriptors 48 fl (len x)) (layout_contents fl)) /\
                   desc_reads rs d cnt.
 Proof.
-  intros fl t m c Hok Hwf Hext x Hperm Hxl Hfol Hsize f.
+  intros fl t m c Hok Hwf Hext x Hperm Hxl Hsize f.
   destruct (dx_of_render c t m Hwf Hext) as (Hmeta & _ & _ & Hne). fold x in Hmeta, Hne.
-  destruct (spec_file_read_by_model fl x Hok Hne Hxl Hfol Hsize) as (rs & d' & Hopen & Hinv & HF).
+  destruct (spec_file_read_by_model fl x Hok Hne Hxl Hsize) as (rs & d' & Hopen & Hinv & HF).
   exists rs, d'. split; [exact Hopen|]. split; [exact Hinv|].
   split; [exact (parse_render c t Hwf)|]. split; [exact Hmeta|].
   intros d Hd. pose proof (Permutation_in _ Hperm Hd) as Hd'.
